@@ -262,6 +262,38 @@ walk_patterns(const TranslationTableRule *r) {
 	printf(" ; BND %d 1 ; BND %d 1", okb ? 0 : 1, oka ? 0 : 1);
 }
 
+/* The display table of the list: two hash tables of chains of (next, lookFor, found) records in an image of its own.
+ * Facts: every record lies inside the used part of that image, sits in the bucket of its key, no chain runs in a circle. */
+static void
+walk_display(const char *tl) {
+	const DisplayTableHeader *D = _lou_getDisplayTable(tl);
+	int which, b;
+	long n = 0, bad_bucket = 0, outside = 0, cyc = 0;
+	if (!D) return;
+	for (which = 0; which < 2; which++)
+		for (b = 0; b < HASHNUM; b++) {
+			TranslationTableOffset o = which ? D->dotsToChar[b] : D->charToDots[b];
+			int guard = 0;
+			while (o) {
+				const CharDotsMapping *m;
+				size_t end = sizeof(*D) - sizeof(D->ruleArea) + (size_t)o * sizeof(TranslationTableData) + sizeof(CharDotsMapping);
+				if (end > D->bytesUsed || D->bytesUsed > D->tableSize) {
+					outside++;
+					break;
+				}
+				if (++guard > 200000) {
+					cyc++;
+					break;
+				}
+				m = (const CharDotsMapping *)&D->ruleArea[o];
+				if ((int)_lou_charHash(m->lookFor) != b) bad_bucket++;
+				n++;
+				o = m->next;
+			}
+		}
+	printf(" ; DISP %ld ; BND %ld 1 ; BND %ld 1 ; BND %ld 1", n, outside, bad_bucket, cyc);
+}
+
 static void
 dump(const char *tl, int ok) {
 	int k;
@@ -392,6 +424,7 @@ dump(const char *tl, int ok) {
 			if (r->opcode == CTO_Match || r->opcode == CTO_BackMatch) walk_patterns(r);
 		}
 	}
+	walk_display(tl);
 	printf("\n");
 }
 
